@@ -51,6 +51,17 @@ CLAIMED['C17'] = dict(
     note='Trusts the exception tables (zlib.error, UnicodeDecodeError, ValueError/IndexError at the analysed sites) and zlib/Sphinx themselves.',
     ref='DESIGN.md section 3, C17')
 
+CLAIMED['C18'] = dict(
+    technique='nondeterminism taint: typed set/listing/clock sources classified by their consuming context',
+    text='Static: every set-typed expression (literals, comprehensions, set()/frozenset(), Set-annotated names, attributes and parameters, '
+         'functions/properties returning a set such as System.root_names) is consumed order-insensitively (membership, len, sorted, set '
+         'algebra, len==1-guarded element access); no id()/hash()/random values (R18.1); directory listings of the input are sorted '
+         '(R18.2); clock reads only reach System.buildtime, which SOURCE_DATE_EPOCH/--buildtime override before output is produced, or log '
+         'messages (R18.3); the writers open output with truncating modes and replace the root symlink (R18.4). Each rule is a necessary '
+         'condition of byte-identical output; equality of two real output trees is not decided.',
+    note='Trusts dict/list insertion order, stability of sorted(), and the reasoned table of listings of pydoctor\'s own resource directories.',
+    ref='DESIGN.md section 3, C18')
+
 NOT_APPLICABLE = {
     'C04': 'relation between expandName results and the interpreter import system over all projects: value computations, no clause visible in the shape of the code (DESIGN.md section 5)',
     'C06': 'quantifies over processing schedules; name resolution during the AST walk is order sensitive by design, no structural bound (DESIGN.md section 5); the one structural fact (post-processing after the drain loop) is checked under C05',
